@@ -37,8 +37,9 @@ def compare_src_wasm(ck, prog, rec, label):
         return False
     inp = {'sources': prog['sources'], 'entry': prog['entry'], 'label': label}
     if sk == 'vec-bounds':
-        # the documented Vec bounds panics are `unreachable` in libsam.wat
-        if wk != 'unreachable' or wasm['lines'] != src['lines']:
+        # the documented Vec bounds panics: $__Process$panic with a fixed message in libsam.wat
+        if wk != 'panic' or wasm['ending'].get('detail') not in ('Vec index out of bounds', 'pop from empty Vec') \
+                or wasm['lines'] != src['lines']:
             ck.property_failure('source semantics: Vec bounds panic after %d lines; wasm: %s after %d lines'
                                 % (len(src['lines']), wasm['ending'], len(wasm['lines'])), inp, expected=src, observed=wasm)
         return True
